@@ -92,6 +92,136 @@ func runC06(c *Check) {
 
 	c.focusWiring(applyFocus)
 	c.focusOnce()
+	c.filterOrder(applyFocus)
+	c.perLocationFilters(byName)
+}
+
+// filterOrder (R3c): samples are selected on their labels before labels are hidden.
+func (c *Check) filterOrder(applyFocus *ssa.Function) {
+	p := c.P
+	find := func(name string) *ssa.Call {
+		for _, b := range applyFocus.Blocks {
+			for _, ins := range b.Instrs {
+				if call, ok := ins.(*ssa.Call); ok && call.Call.StaticCallee() != nil && call.Call.StaticCallee().Name() == name && fnPkgPath(call.Call.StaticCallee()) == modPath+"/profile" {
+					return call
+				}
+			}
+		}
+		return nil
+	}
+	for _, pair := range [][2]string{{"FilterSamplesByTag", "FilterTagsByName"}, {"FilterSamplesByName", "PruneFrom"}, {"FilterSamplesByName", "ShowFrom"}} {
+		a, b := find(pair[0]), find(pair[1])
+		key := "order:" + pair[0] + "<" + pair[1]
+		if a == nil || b == nil {
+			c.undecided("C06-R3", key, p.relFile(applyFocus.Pos()), "calls not found in applyFocus")
+			continue
+		}
+		if instrDominates(a, b) {
+			c.ok("C06-R3", key, p.relFile(b.Pos()), pair[0]+" runs before "+pair[1], "the first call dominates the second in applyFocus")
+		} else {
+			why := "frames would be removed before the name filters select samples on them"
+			if pair[0] == "FilterSamplesByTag" {
+				why = "tagfocus/tagignore would select on labels that taghide/tagshow already removed, so hiding a label changes which samples are kept"
+			}
+			c.bad("C06-R3", key, p.relFile(b.Pos()), pair[1]+" is not preceded by "+pair[0]+" in applyFocus: "+why)
+		}
+	}
+}
+
+// perLocationFilters (R4): in FilterSamplesByName, when a show (resp. hide) expression is
+// given it is applied to every location of the profile: no path through one iteration of
+// the location loop skips it.
+func (c *Check) perLocationFilters(byName *ssa.Function) {
+	p := c.P
+	for _, flt := range []struct{ param, callee string }{{"show", "matchedLines"}, {"hide", "unmatchedLines"}} {
+		var par *ssa.Parameter
+		for _, pr := range byName.Params {
+			if pr.Name() == flt.param {
+				par = pr
+			}
+		}
+		var call *ssa.Call
+		for _, b := range byName.Blocks {
+			for _, ins := range b.Instrs {
+				if cl, ok := ins.(*ssa.Call); ok && cl.Call.StaticCallee() != nil && cl.Call.StaticCallee().Name() == flt.callee {
+					call = cl
+				}
+			}
+		}
+		key := "each-location:" + flt.param
+		if par == nil || call == nil {
+			c.undecided("C06-R4", key, p.relFile(byName.Pos()), "parameter "+flt.param+" or call of "+flt.callee+" not found in FilterSamplesByName")
+			continue
+		}
+		// loop header of the location loop: nearest dominator that is the target of a back edge from the call's block
+		var hdr *ssa.BasicBlock
+		for d := call.Block(); d != nil && hdr == nil; d = d.Idom() {
+			for _, pred := range d.Preds {
+				if d.Dominates(pred) && (pred == call.Block() || blockReachesPlain(call.Block(), pred)) {
+					hdr = d
+				}
+			}
+		}
+		if hdr == nil {
+			c.undecided("C06-R4", key, p.relFile(call.Pos()), flt.callee+" is not called inside a loop")
+			continue
+		}
+		assume := func(cond ssa.Value) int {
+			// the expression is given …
+			if cmp, ok := cond.(*ssa.BinOp); ok && (cmp.X == ssa.Value(par) || cmp.Y == ssa.Value(par)) {
+				if cmp.Op == token.NEQ {
+					return 1
+				}
+				if cmp.Op == token.EQL {
+					return -1
+				}
+			}
+			// … and (for hide) it matches this location
+			if flt.param == "hide" {
+				if cl, ok := cond.(*ssa.Call); ok && cl.Call.StaticCallee() != nil && cl.Call.StaticCallee().Name() == "matchesName" && len(cl.Call.Args) == 2 && cl.Call.Args[1] == ssa.Value(par) {
+					return 1
+				}
+			}
+			return 0
+		}
+		// can one iteration (body entry → back to the header) avoid the call's block?
+		skipped := false
+		body := hdr.Succs[0]
+		loop := naturalLoop(hdr)
+		seen := map[*ssa.BasicBlock]bool{}
+		var walk func(b *ssa.BasicBlock)
+		walk = func(b *ssa.BasicBlock) {
+			if b == call.Block() || seen[b] || skipped {
+				return
+			}
+			if b == hdr {
+				skipped = true
+				return
+			}
+			if !loop[b] {
+				return
+			}
+			seen[b] = true
+			succs := b.Succs
+			if iff, ok := b.Instrs[len(b.Instrs)-1].(*ssa.If); ok {
+				switch assume(iff.Cond) {
+				case 1:
+					succs = b.Succs[:1]
+				case -1:
+					succs = b.Succs[1:]
+				}
+			}
+			for _, sc := range succs {
+				walk(sc)
+			}
+		}
+		walk(body)
+		if skipped {
+			c.bad("C06-R4", key, p.relFile(call.Pos()), "FilterSamplesByName can finish a location without applying "+flt.param+" although the expression is given: the result depends on what the other filters matched on that location")
+		} else {
+			c.ok("C06-R4", key, p.relFile(call.Pos()), flt.param+" is applied to every location when it is given", "no path through one iteration of the location loop avoids the "+flt.callee+" call under "+flt.param+" != nil")
+		}
+	}
 }
 
 func allAnon(f *ssa.Function) []*ssa.Function {
